@@ -115,6 +115,20 @@ def check_weighted(ctx, case) -> None:
         ctx.cls("warmup:" + case["warmup"])
         ctx.check(dz.type.name == case["type"] and dz.parameters() == ("" if case["type"] == "Automatic" else case["type"]),
                   "configured-type-changed-by-use", case, {"type": dz.type.name, "parameters": dz.parameters()})
+    if case.get("warmup_agg"):
+        # the same fuzzy-output object first held nothing / terms of another kind (an OutputVariable keeps one
+        # Aggregated for its whole life): the kind is inferred from what it holds now
+        saved = list(agg.terms)
+        wt = {"empty": [], "ts": [fl.Activated(fl.Constant("wc", 1.5), 0.5, None)],
+              "mono": [fl.Activated(fl.Ramp("wr", 0.0, 2.0), 0.5, None)]}[case["warmup_agg"]]
+        agg.terms = list(wt)
+        try:
+            getattr(fl, case["defuzzifier"])(case["type"]).defuzzify(agg)
+            dz.defuzzify(agg)
+        except (TypeError, RuntimeError, ValueError):
+            pass
+        agg.terms = saved
+        ctx.cls("warmup_agg:" + case["warmup_agg"])
     outcome = None
     try:
         z = dz.defuzzify(agg)
@@ -240,7 +254,8 @@ def cases(draw):
             "aggregation": draw(st.sampled_from(refmath.SNORMS + [None, None, None])),
             "inputs": inputs, "terms": terms, "acts": acts,
             # the same defuzzifier object is first used on another output (a defuzzifier holds no state between calls)
-            "warmup": draw(st.sampled_from([None, None, "ts", "mono", "other"]))}
+            "warmup": draw(st.sampled_from([None, None, "ts", "mono", "other"])),
+            "warmup_agg": draw(st.sampled_from([None, None, None, "empty", "ts", "mono"]))}
 
 
 def shard(ctx, shard, nshards, ex):
